@@ -390,6 +390,16 @@ fn rewrite(s: &S, root_type: &S, ch: &mut Ch) -> Option<(S, &'static str, bool)>
             Some((rename(s, &map), "r1 consistent renaming", true))
         }
         1 => {
+            // A third of the time, when the program has a group of two or more definitions: the
+            // parentheses go around the *tail* of the group (`x = a; (y = b; body)`), which is not a
+            // node of `S` (a group is one node). The body of a definition is a term, so these
+            // parentheses are redundant like any others; definitions before them may well refer to
+            // definitions inside them and vice versa.
+            if ch.chance(1, 3) {
+                if let Some(t) = crate::gens::mutate::paren_group_tail(s, ch) {
+                    return Some((t, "r2 redundant parentheses around the tail of a group", true));
+                }
+            }
             let mut k = ch.pick(n);
             let below = k > 0;
             Some((map_nth(s, &mut k, &mut |x| S::Paren(Box::new(x.clone()))), "r2 redundant parentheses", below))
@@ -651,6 +661,11 @@ fn rewrite_case_inner(ctx: &Ctx, ch: &mut Ch, order_family: bool) -> Outcome {
             if !label.starts_with("r2") {
                 exact_values = false;
             }
+            // The parenthesised tail of a group is not a subexpression like any other (definitions
+            // before it refer to names bound inside it), so no further rewrite is applied to it.
+            if label.ends_with("tail of a group") {
+                break;
+            }
         }
     }
     if labels.is_empty() {
@@ -666,7 +681,7 @@ fn rewrite_case_inner(ctx: &Ctx, ch: &mut Ch, order_family: bool) -> Outcome {
     }
     // A rewrite at the root of a definition can turn a syntactic value into a non-value; the
     // rewritten program is in the domain only if it still satisfies the definition-order rule.
-    if !crate::refs::order::order_ok(&rewritten.flatten()) {
+    if !crate::refs::order::order_ok(&rewritten.flatten_merged()) {
         ctx.class("excluded: the rewritten program does not satisfy the definition-order rule (a definition stopped being a syntactic value)");
         return Ok(());
     }
